@@ -464,8 +464,22 @@ func runC08(c *core.Ctx, o Options) {
 		ob.Ok("%d sending iteration path(s)", nSend)
 	}
 	// W3
-	arg := an.Render(w.timers[cell].Call.Args[0])
-	c.Check(arg == "(1000000000 * time.Duration(s.LogonSettings.HeartBtInt))", "W3", "start", "heartbeat period is time.Second × negotiated HeartBtInt", w.timers[cell].Pos(), arg, "the heartbeat timer's period is "+arg)
+	{
+		// as a linear form over the negotiated interval, on every interprocedural path of start through the timer's creation
+		call := w.timers[cell]
+		paths, _ := an.EnumPathsX(w.start, 4096)
+		n, arg := 0, ""
+		for _, p := range paths {
+			if !p.Passes(call) {
+				continue
+			}
+			n++
+			if tol, bad := periodTolerance(an.NewProver(w.start, p, call, nil), call.Call.Args[0], p); bad != "" || tol != "0" {
+				arg = "the heartbeat timer's period is " + an.RenderOnPath(call.Call.Args[0], p) + " (" + bad + tol + ")"
+			}
+		}
+		c.Check(arg == "" && n > 0, "W3", "start", "heartbeat period is time.Second × negotiated HeartBtInt", call.Pos(), fmt.Sprintf("%d path(s)", n), arg)
+	}
 	checkTimerType(c, "W4")
 	// the timer is closed when the goroutine ends (no leak of the polling ticker's goroutine) — informational in C13
 	// W1 premises in the handler pool: a refused message does not reach the refreshing handler (the outgoing chain stops at the
@@ -474,7 +488,9 @@ func runC08(c *core.Ctx, o Options) {
 	checkPoolGrowOnly(c, "W1")
 	w.checkTimerClosers("W2")
 	w.checkStartAlwaysArms("W3")
+	w.checkSettingsFixedAfterArming("W3")
 	w.checkAcceptorArms("W3")
+	c.Explanation += " W3 also: on no path of any entry point is Session.LogonSettings (or a field of it) assigned after the timers have been armed on that path (start() called or the logon event triggered): the interval the session reports is the interval it heartbeats with."
 	c.RuleMin = map[string]int{"W1": 8, "W2": 4, "W3": 1, "W4": 5}
 	c.MinObl = 10
 }
@@ -551,18 +567,20 @@ func runC09(c *core.Ctx, o Options) {
 			}
 			n++
 			arg := an.RenderOnPath(call.Call.Args[0], p)
-			pre, suf := "(1000000000 * time.Duration(("+H+" + ", ")))"
-			if !strings.HasPrefix(arg, pre) || !strings.HasSuffix(arg, suf) {
-				bad = "the period is " + arg
+			t, why := periodTolerance(an.NewProver(w.start, p, call, nil), call.Call.Args[0], p)
+			if why != "" {
+				bad = "the period is " + arg + " (" + why + ")"
 				break
 			}
-			t := strings.TrimSuffix(strings.TrimPrefix(arg, pre), suf)
 			q := "(" + H + " / 20)"
 			d := an.PathDBM(p)
+			// H ≤ 20 ⇒ H/20 ≤ 1 and H ≥ 20 ⇒ H/20 ≥ 1 (integer division of a non-negative interval)
+			qLE1 := d.Entails(an.Lin{Term: q}, an.Lin{K: 1}, false) || d.Entails(an.Lin{Term: H}, an.Lin{K: 20}, false)
+			qGE1 := d.Entails(an.Lin{K: 1}, an.Lin{Term: q}, false) || d.Entails(an.Lin{K: 20}, an.Lin{Term: H}, false)
 			switch {
 			case t == "int(math.Max(float64("+q+"), 1))":
-			case t == "1" && d.Entails(an.Lin{Term: q}, an.Lin{K: 1}, true):
-			case t == q && d.Entails(an.Lin{K: 1}, an.Lin{Term: q}, false):
+			case t == "1" && qLE1:
+			case t == q && qGE1:
 			default:
 				bad = "the tolerance added to the interval is " + t + " under [" + p.CondString() + "]; expected max(1, HeartBtInt/20)"
 			}
@@ -988,6 +1006,37 @@ func (w *wiring) checkTimerClosers(rule string) {
 
 // checkStartAlwaysArms: every successful return of start has created both timers (with the periods of the settings in force now)
 // and spawned both goroutines — no early success that keeps the timers of an earlier logon, whose interval may differ.
+// checkSettingsFixedAfterArming: the interval the timers are armed with is the interval the session goes on with — on no path
+// of any entry point is Session.LogonSettings (or a field of it) assigned after the timers have been started on that path
+// (start() called, or the logon event triggered, whose subscriber calls start() on the initiating side).
+func (w *wiring) checkSettingsFixedAfterArming(rule string) {
+	s := w.s
+	c := s.c
+	SL := s.m.StateVals["SuccessfulLogged"]
+	n, bad := 0, ""
+	var where token.Pos
+	for _, r := range s.roots() {
+		for _, t := range s.tr.Traces(r.Fn, s.m.AllStates) {
+			armed := ""
+			for _, e := range t.Events {
+				switch {
+				case e.Kind == "check" && e.Name == "start":
+					armed = "start()"
+				case e.Kind == "state" && e.To == SL && e.Trigger != 0:
+					armed = "the logon event"
+				case e.Kind == "trigger" && e.Name == "EventLogon":
+					armed = "the logon event"
+				case e.Kind == "setfield" && (e.Name == "LogonSettings" || strings.HasPrefix(e.Name, "LogonSettings.")) && armed != "":
+					bad = fmt.Sprintf("%s assigns %s after %s has started the timers with the previous value: the session reports one interval and heartbeats with another", r.Name(), e.Name, armed)
+					where = e.Pos
+				}
+			}
+			n++
+		}
+	}
+	c.Check(bad == "" && n > 0, rule, "LogonSettings", "the negotiated settings are not changed after the timers have been armed with them", where, fmt.Sprintf("%d paths", n), bad)
+}
+
 func (w *wiring) checkStartAlwaysArms(rule string) {
 	c := w.s.c
 	var need []ssa.Instruction
@@ -1055,4 +1104,30 @@ func (w *wiring) checkAcceptorArms(rule string) {
 		}
 	}
 	c.Check(bad == "" && n > 0, rule, "inbound:Logon", "the acceptor's Logon handler arms the timers itself", lf.Pos(), fmt.Sprintf("%d approving path(s) call start()", n), bad)
+}
+
+
+// periodTolerance reads a timer period as a linear form over the negotiated interval: period = time.Second × (H + T). It
+// returns T rendered ("0", "1", an expression) or a reason why the period is not of that form. Helpers that compute the period
+// are read through (the prover works on the interprocedural path).
+func periodTolerance(pr *an.Prover, period ssa.Value, p *an.Path) (string, string) {
+	const H = "s.LogonSettings.HeartBtInt"
+	const sec = int64(1000000000)
+	l := pr.Lin(period)
+	if l.C[H] != sec {
+		return "", fmt.Sprintf("the coefficient of the negotiated interval is %d ns, not one second", l.C[H])
+	}
+	rest := l.Add(an.LForm{C: map[string]int64{H: sec}}, -1)
+	switch {
+	case rest.IsConst() && rest.K%sec == 0:
+		return fmt.Sprint(rest.K / sec), ""
+	case rest.K == 0 && len(rest.C) == 1:
+		for term, coef := range rest.C {
+			if coef == sec {
+				return term, ""
+			}
+			return "", fmt.Sprintf("the tolerance term %s is scaled by %d ns, not by one second", term, coef)
+		}
+	}
+	return "", "the period is not time.Second × (HeartBtInt + tolerance): " + l.String()
 }
